@@ -47,6 +47,8 @@ pub enum AckRef {
 
 pub const MALFORMED_ACK_IDS: &[&str] = &[
     "", "bogus", "-1", "1x", " 1", "1 ", "1.0", "18446744073709551616", "٣", "0x10", "1e3", "١٢",
+    // 2^64 + k: not a u64; a parser that wraps would take them for the ack ids 1, 2, 3
+    "18446744073709551617", "18446744073709551618", "18446744073709551619", "36893488147419103233",
 ];
 
 /// Payload shape of a published message.
